@@ -537,6 +537,9 @@ func (c *Conn) syncGroup(request syncGroupRequestV0) (syncGroupResponseV0, error
 
 // Close closes the kafka connection.
 func (c *Conn) Close() error {
+	if verifOn {
+		verifEvent("C.Closed", c)
+	}
 	return c.conn.Close()
 }
 
